@@ -34,6 +34,9 @@ def roundtrip(rep, d, gen, pid, file_only=False):
         file_clause = ("file" in why) or ("strict_decoder" in why) or ("units_record" in why) \
             or ("timestamps" in why) or ("garbage" in why)
         cycle_clause = "cycle" in why or "error_code" in why or "handle" in why
+        if "Crash" in why or "Hang" in why or not (file_clause or cycle_clause):
+            # a crash / hang, or a rejection that names neither kind of clause, belongs to both readings
+            file_clause = cycle_clause = True
         if file_only and not file_clause:
             continue
         if not file_only and not cycle_clause:
